@@ -43,7 +43,12 @@ def _multi_env_padding_overflow(kind, w):
     variable number of machines per operation - a later instance can have more
     edges / nodes, and reset()/step() raises add_padding's ValidationError.
     Matches only: that exact error, raised from add_padding, for a generator
-    that is not classic."""
+    that is not classic, AND only when the graphs *as their builders define
+    them* (independent reference definition, shared with C16) really are
+    larger for the episode's instance than for the sample the shapes were
+    taken from - in nodes, edges, operations, jobs or machines.  An overflow
+    for an instance whose correctly built graph fits the sample's is another
+    defect and stays a violation."""
     if kind not in ("c18_multi_env_reset_raised", "c18_multi_env_step_raised"):
         return False
     x = w.get("witness", {})
@@ -51,9 +56,28 @@ def _multi_env_padding_overflow(kind, w):
     mpo = g.get("machines_per_operation", 1)
     non_classic = bool(g.get("allow_recirculation")) or (
         (max(mpo) if isinstance(mpo, (list, tuple)) else mpo) > 1)
-    return (non_classic and x.get("from_add_padding") is True
+    if not (non_classic and x.get("from_add_padding") is True
             and str(x.get("error", "")).startswith(
-                "Output shape must be greater than the input shape."))
+                "Output shape must be greater than the input shape.")):
+        return False
+    if not x.get("template_instance") or not x.get("episode_instance"):
+        return False
+    return _graph_dimensions(x["episode_instance"], x["builder"]) > \
+        _graph_dimensions(x["template_instance"], x["builder"])
+
+
+class _Dims(tuple):
+    """(nodes, edges, operations, jobs, machines); a > b iff some component is larger."""
+    def __gt__(self, other):
+        return any(p > q for p, q in zip(self, other))
+
+
+def _graph_dimensions(inst, builder):
+    from .props.c16 import spec
+    from .ref import Ref
+    r = Ref(inst)
+    nodes, edges = spec(r, builder)
+    return _Dims((len(nodes), len(edges), r.num_ops, r.num_jobs, r.num_machines))
 
 
 def _float32_mwkr_model(inst, history, available, created_at=0):
